@@ -91,7 +91,7 @@ def _call():
     return c
 
 
-def _terms():
+def _terms(deep: bool = False):
     T = lambda: Stub(Q['Token'], token='a')  # noqa: E731
     leaves = {
         'token': T, 'pattern': lambda: _pattern(False), 'empty-matching pattern': lambda: _pattern(True), 'call': lambda: _call(),
@@ -116,9 +116,19 @@ def _terms():
         for ln, lf in leaves.items():
             d1.append((f'{wn}({ln})', (lambda w=w, lf=lf: w(lf()))))
     out += d1
+    d2 = []
     for wn, w in wrappers.items():
         for n1, f1 in d1:
-            out.append((f'{wn}({n1})', (lambda w=w, f1=f1: w(f1()))))
+            d2.append((f'{wn}({n1})', (lambda w=w, f1=f1: w(f1()))))
+    out += d2
+    if deep:
+        # depth 3: the wrappers over all depth-2 terms
+        k = 0
+        for wn, w in wrappers.items():
+            for n2, f2 in d2:
+                k += 1
+                if k % 1 == 0:
+                    out.append((f'{wn}({n2})', (lambda w=w, f2=f2: w(f2()))))
     # sequences and choices of two / three leaves and wrapped leaves (void, cut, constant in every position)
     small = list(leaves.items()) + [(n, f) for n, f in d1 if n.split('(')[0] in ('optional', 'group', '&', '!', 'closure')]
     for (n1, f1), (n2, f2) in itertools.product(small, repeat=2):
@@ -144,13 +154,13 @@ def r11_optimizer(a, tier):
         'and dropping an optional around an optional or non-positive closure / join / gather',
         floor=400,
     )
-    terms = _terms()
+    terms = _terms(deep=(tier == 'thorough'))
     if tier != 'thorough':
         # quick: every leaf and depth-1 term, every 5th deeper term
         head = [t for t in terms if t[0].count('(') <= 1 and not t[0].startswith(('sequence(', 'choice('))]
         rest = [t for t in terms if t not in head]
         terms = head + rest[::5]
-        rep.text += ' [quick tier: all terms of depth <= 1 and every 5th deeper term; thorough: all]'
+        rep.text += ' [quick tier: all terms of depth <= 1 and every 5th deeper term; thorough: all, plus all wrapper terms of depth 3]'
         rep.floor = 300
     G = {'copy': Hook(_copy), 'typename': Hook(lambda o: o._cls.split('.')[-1] if isinstance(o, Stub) else type(o).__name__),
          'Group': Hook(lambda exp=None, **k: Stub(Q['Group'], exp=exp)), 'Choice': Hook(lambda options=None, **k: Stub(Q['Choice'], options=options)),
